@@ -7,7 +7,16 @@ import os, subprocess, shutil, tempfile
 # file:functions translated into the one program `src_pure`
 SRC_SPEC = ("crc.go:*;encoding.go:*;modbus.go:mapExceptionCodeToError,mapErrorToExceptionCode;"
             "rtu_transport.go:expectedResponseLenth,serialCharTime,rtuTransport.assembleRTUFrame;"
-            "tcp_transport.go:tcpTransport.assembleMBAPFrame;client.go:registerCount")
+            "tcp_transport.go:tcpTransport.assembleMBAPFrame;"
+            "client.go:registerCount,ModbusClient.SetUnitId,ModbusClient.SetEncoding,ModbusClient.encoding,"
+            "ModbusClient.executeRequest,ModbusClient.readBools,ModbusClient.readRegisters,ModbusClient.writeRegisters,"
+            "ModbusClient.ReadCoils,ModbusClient.ReadCoil,ModbusClient.ReadDiscreteInputs,ModbusClient.ReadDiscreteInput,"
+            "ModbusClient.ReadRegisters,ModbusClient.ReadRegister,"
+            "ModbusClient.ReadUint32s,ModbusClient.ReadUint32,ModbusClient.ReadFloat32s,ModbusClient.ReadFloat32,"
+            "ModbusClient.ReadUint64s,ModbusClient.ReadUint64,ModbusClient.ReadFloat64s,ModbusClient.ReadFloat64,"
+            "ModbusClient.WriteCoil,ModbusClient.WriteCoils,ModbusClient.WriteRegister,ModbusClient.WriteRegisters,"
+            "ModbusClient.WriteUint32s,ModbusClient.WriteUint32,ModbusClient.WriteFloat32s,ModbusClient.WriteFloat32,"
+            "ModbusClient.WriteUint64s,ModbusClient.WriteUint64,ModbusClient.WriteFloat64s,ModbusClient.WriteFloat64")
 
 
 def regen_src(verif_dir, repo_dir, goenv):
